@@ -167,3 +167,161 @@ func VH_C01_VerifyAPREQ() {
 		}
 	}
 }
+
+// ---- C02: an authenticator is accepted at most once while it remains acceptable ---------------------------
+
+func vhAuth(cname string, ct time.Time, cusec int) types.Authenticator {
+	return types.Authenticator{AVNO: 5, CRealm: "R", CName: types.PrincipalName{NameType: 1, NameString: []string{cname}}, CTime: ct, Cusec: cusec}
+}
+
+func vhSvc(n string) types.PrincipalName {
+	return types.PrincipalName{NameType: 2, NameString: []string{n}}
+}
+
+func vhNewCache() *Cache { return &Cache{entries: make(map[string]clientEntries)} }
+
+// VH_C02_Sequential: first presentation accepted, exact repeat rejected, different client or instant accepted.
+func VH_C02_Sequential() {
+	c := vhNewCache()
+	ct := zzverif.AnyTime()
+	cn := zzverif.String(1)
+	a := vhAuth(cn, ct, 7)
+	zzverif.Assert("first-presentation-accepted", !c.IsReplay(vhSvc("s"), a))
+	zzverif.Assert("exact-repeat-is-a-replay", c.IsReplay(vhSvc("s"), a))
+	cn2, ct2 := zzverif.String(1), zzverif.AnyTime()
+	zzverif.Assume(cn2 != cn || !ct2.Equal(ct))
+	zzverif.Assert("different-client-or-instant-is-not-a-replay", !c.IsReplay(vhSvc("s"), vhAuth(cn2, ct2, 7)))
+	zzverif.Assert("first-still-a-replay", c.IsReplay(vhSvc("s"), a))
+	zzverif.Reach("done")
+}
+
+// VH_C02_NameEncoding: client names that differ only in how a '/' splits them are different clients.
+func VH_C02_NameEncoding() {
+	c := vhNewCache()
+	ct := zzverif.AnyTime()
+	a1 := types.Authenticator{CRealm: "R", CName: types.PrincipalName{NameString: []string{"a", "b"}}, CTime: ct}
+	a2 := types.Authenticator{CRealm: "R", CName: types.PrincipalName{NameString: []string{"a/b"}}, CTime: ct}
+	zzverif.Assert("first-presentation-accepted", !c.IsReplay(vhSvc("s"), a1))
+	zzverif.Assert("another-client-with-the-same-timestamp-is-not-a-replay", !c.IsReplay(vhSvc("s"), a2))
+	zzverif.Reach("done")
+}
+
+// VH_C02_TwoServices: the same authenticator instant presented to another service in between does not
+// make the cache forget the first presentation.
+func VH_C02_TwoServices() {
+	c := vhNewCache()
+	a := vhAuth(zzverif.String(1), zzverif.AnyTime(), 3)
+	zzverif.Assert("first-presentation-accepted", !c.IsReplay(vhSvc("s1"), a))
+	c.IsReplay(vhSvc("s2"), a) // whatever the verdict for the other service
+	zzverif.Assert("replay-to-first-service-still-detected", c.IsReplay(vhSvc("s1"), a))
+	zzverif.Reach("done")
+}
+
+// VH_C02_Cleanup: clean-up may only drop an entry whose authenticator can no longer pass the skew check.
+func VH_C02_Cleanup() {
+	c := vhNewCache()
+	d := time.Duration(zzverif.Int64())
+	zzverif.Assume(d > 0 && d < 1<<50)
+	ct := zzverif.AnyTime()
+	a := vhAuth("c", ct, 0)
+	t0 := zzverif.Now()
+	zzverif.Assume(t0.Sub(ct) <= d && ct.Sub(t0) <= d) // acceptable when first presented
+	zzverif.Assert("first-presentation-accepted", !c.IsReplay(vhSvc("s"), a))
+	zzverif.AdvanceClock()
+	c.ClearOldEntries(d)
+	zzverif.AdvanceClock()
+	t2 := zzverif.Now()
+	zzverif.Assume(t2.Sub(ct) <= d && ct.Sub(t2) <= d) // still inside the skew window
+	zzverif.Assert("replay-detected-after-cleanup-while-still-acceptable", c.IsReplay(vhSvc("s"), a))
+	zzverif.Reach("done")
+}
+
+// VH_C02_ConcurrentSame: goroutines presenting the same authenticator at once: at most one is accepted.
+func VH_C02_ConcurrentSame() {
+	n := zzverif.Param("threads")
+	c := vhNewCache()
+	a := vhAuth(zzverif.String(1), zzverif.AnyTime(), 5)
+	res := make([]bool, n)
+	var fs []func()
+	for i := 0; i < n; i++ {
+		i := i
+		fs = append(fs, func() { res[i] = c.IsReplay(vhSvc("s"), a) })
+	}
+	zzverif.Par(fs...)
+	accepted := 0
+	for _, r := range res {
+		if !r {
+			accepted++
+		}
+	}
+	zzverif.Assert("identical-authenticator-accepted-at-most-once", accepted <= 1)
+	zzverif.Assert("identical-authenticator-accepted-at-least-once", accepted >= 1)
+	zzverif.Reach("done")
+}
+
+// VH_C02_ConcurrentDistinct: distinct authenticators presented at once are all accepted; a clean-up
+// running at the same time changes nothing (everything is fresh).
+func VH_C02_ConcurrentDistinct() {
+	c := vhNewCache()
+	ct := zzverif.AnyTime()
+	cn1, cn2 := zzverif.String(1), zzverif.String(1)
+	ct2 := zzverif.AnyTime()
+	zzverif.Assume(cn1 != cn2 || !ct.Equal(ct2))
+	var r1, r2 bool
+	zzverif.Par(func() { r1 = c.IsReplay(vhSvc("s"), vhAuth(cn1, ct, 1)) }, func() { r2 = c.IsReplay(vhSvc("s"), vhAuth(cn2, ct2, 1)) }, func() { c.ClearOldEntries(time.Hour) })
+	zzverif.Assert("distinct-authenticators-not-mistaken-for-replays", !r1 && !r2)
+	zzverif.Reach("done")
+}
+
+// VH_C02_History: every history of k operations over {present a1, present a2, clean-up} from the empty
+// cache, the clock advancing arbitrarily between operations.  A presentation of an authenticator that
+// was accepted before and is still inside the skew window must be reported as a replay; an
+// authenticator never presented before must be accepted.
+func VH_C02_History() {
+	k := zzverif.Param("k")
+	c := vhNewCache()
+	d := time.Duration(zzverif.Int64())
+	zzverif.Assume(d > 0 && d < 1<<50)
+	ct := [2]time.Time{zzverif.AnyTime(), zzverif.AnyTime()}
+	zzverif.Assume(!ct[0].Equal(ct[1]))
+	auth := [2]types.Authenticator{vhAuth("c", ct[0], 0), vhAuth("c", ct[1], 0)}
+	var accepted, presented [2]bool
+	for step := 0; step < k; step++ {
+		zzverif.AdvanceClock()
+		now := zzverif.Now()
+		op := zzverif.Choose(0, 2)
+		if op == 2 {
+			c.ClearOldEntries(d)
+			continue
+		}
+		// the service only consults the cache for authenticators that passed the skew check
+		zzverif.Assume(now.Sub(ct[op]) <= d && ct[op].Sub(now) <= d)
+		replay := c.IsReplay(vhSvc("s"), auth[op])
+		if accepted[op] {
+			zzverif.Assert("accepted-authenticator-still-in-window-is-a-replay", replay)
+		}
+		if !presented[op] {
+			zzverif.Assert("authenticator-never-presented-is-accepted", !replay)
+		}
+		presented[op] = true
+		if !replay {
+			accepted[op] = true
+		}
+	}
+	zzverif.Reach("done")
+}
+
+// VH_C02_BusyClient: n authenticators of one client are being tracked (all inside the skew window); the
+// one with the oldest client time is presented again.
+func VH_C02_BusyClient() {
+	n := zzverif.Param("n")
+	c := vhNewCache()
+	base := time.Unix(1700000000, 0).UTC()
+	for i := 0; i < n; i++ {
+		if c.IsReplay(vhSvc("s"), vhAuth("c", base.Add(time.Duration(i)*time.Microsecond), 0)) {
+			zzverif.Assert("distinct-authenticators-accepted", false)
+		}
+	}
+	zzverif.Assert("oldest-tracked-authenticator-still-a-replay", c.IsReplay(vhSvc("s"), vhAuth("c", base, 0)))
+	zzverif.Reach("done")
+}
